@@ -57,7 +57,7 @@ def proto_ty_str(tp) -> str:
 def gen_type(rng: random.Random):
     e = rng.choice(list(ELEMS))
     rank = rng.choice([0, 1, 1, 2, 2, 3])
-    return {"e": e, "d": [rng.choice([1, 2, 3, "N", "M", "K", None]) for _ in range(rank)]}
+    return {"e": e, "d": [rng.choice([0, 1, 1, 2, 3, "N", "M", "K", None, None]) for _ in range(rank)]}
 
 
 def feed_for(ty, rng: random.Random):
@@ -97,6 +97,12 @@ class _Gen:
             r = rng.random()
             if pending and rng.random() < 0.7:
                 nd = self.new({"k": "lift", "a": pending.pop()})
+            elif r < 0.05 and depth == 0 and [i for i in vis_any if self.info[i]["k"] == "arg"]:
+                # a non-scalar value: Cast(argument) keeps the argument's dims (constant, zero, symbolic, unknown)
+                nd = self.new({"k": "tcast", "a": rng.choice([i for i in vis_any if self.info[i]["k"] == "arg"])})
+                nodes.append(nd)
+                vis_any.append(nd["id"])
+                continue
             elif r < 0.25 and vis_any:
                 nd = self.new({"k": "lift", "a": rng.choice(vis_any)})
             elif r < 0.30:
@@ -129,8 +135,8 @@ class _Gen:
                 nd = self.new({"k": "const", "v": 1.0})
             nodes.append(nd)
             vis_sc.append(nd["id"])
-        own_sc = [n["id"] for n in nodes]
-        res = [rng.choice(own_sc)] if own_sc and rng.random() < 0.85 else [rng.choice(vis_sc)]
+        own_sc = [n["id"] for n in nodes if n["k"] != "tcast"]
+        res = [rng.choice(own_sc)] if own_sc and (rng.random() < 0.85 or not vis_sc) else [rng.choice(vis_sc)] if vis_sc else []
         return {"formals": formals or [], "nodes": nodes, "res": res}
 
     def _some_args(self, vis_any):
@@ -196,6 +202,8 @@ def formal_nodes(prog):
 
 def abstract_type(prog, i):
     nd = index(prog).get(i) or formal_nodes(prog)[i]
+    if nd["k"] == "tcast":
+        return {"e": "f32", "d": list(abstract_type(prog, nd["a"])["d"])}
     return nd["ty"] if nd["k"] in ("arg", "init", "formal") else dict(SCALAR)
 
 
@@ -224,7 +232,7 @@ def free_args(prog, out_ids):
             s = {i}
         elif k in ("const", "init", "junk"):
             s = set()
-        elif k in ("lift", "neg", "bin"):
+        elif k in ("lift", "neg", "bin", "tcast"):
             s = set(of(nd["a"]))
         elif k in ("add", "mul"):
             s = of(nd["a"]) | of(nd["b"])
@@ -321,6 +329,8 @@ def realize(prog, op=None):
                 env[i] = op.const(np.float32(nd["v"]))
             elif k == "lift":
                 env[i] = op.reduce_sum(op.cast(env[nd["a"]], to=np.float32), keepdims=0)
+            elif k == "tcast":
+                env[i] = op.cast(env[nd["a"]], to=np.float32)
             elif k == "add":
                 env[i] = op.add(env[nd["a"]], env[nd["b"]])
             elif k == "mul":
@@ -372,6 +382,8 @@ def evaluate(prog, feeds, out_ids):
             v = np.float32(nd["v"])
         elif k == "lift":
             v = np.float32(np.asarray(ev(nd["a"], env)).astype(np.float32).sum())
+        elif k == "tcast":
+            v = np.asarray(ev(nd["a"], env)).astype(np.float32)
         elif k == "add":
             v = np.float32(ev(nd["a"], env) + ev(nd["b"], env))
         elif k == "mul":
@@ -418,7 +430,7 @@ def gen_request(rng: random.Random, prog, *, allow_bad=True, allow_dup=False):
     inits = [n["id"] for n in top if n["k"] == "init"]
     junk = [n["id"] for n in top if n["k"] == "junk"]
     n_out = rng.choice([1, 1, 2, 3])
-    pool = vals * 3 + args  # an argument passed straight through as an output is allowed
+    pool = vals * 3 + args + [n["id"] for n in top if n["k"] == "tcast"] * 3  # an argument passed straight through as an output is allowed
     outs = []
     for _ in range(n_out):
         c = rng.choice(pool)
